@@ -295,6 +295,8 @@ def sym_interp(x, xp, fp, left=None, right=None, period=None):
             return fp[0] if left is None else left
         for i in range(1, len(xp)):
             if xv <= xp[i]:
+                if lift(xv) is lift(xp[i]):
+                    return fp[i]                # evaluated AT a knot (same term): the knot value, as np.interp returns
                 return fp[i - 1] + (fp[i] - fp[i - 1]) * (xv - xp[i - 1]) / (xp[i] - xp[i - 1])
         return fp[-1] if right is None else right
     if isinstance(x, _np.ndarray):
